@@ -85,12 +85,23 @@ def make_case(rng, i, tier):
                 msgs.insert(r2.randrange(msgs.index([x for x in msgs if x[:len(x) - 1] == m[:-1]][0]) + 1, len(msgs) + 1), m)
     prefix = [op for op in random_prefix(rng, n=(1, 2)) if op["op"] in ("copy", "read_abs", "read_rel", "set_channel", "pad", "scale", "iter_rel_velocity_edit", "transpose", "normalise", "concat_copy")] \
         if i % 5 == 4 else []
-    return {"msgs": msgs, "paired": paired, "prefix": prefix}
+    case = {"msgs": msgs, "paired": paired, "prefix": prefix}
+    if i % 9 == 7 and not prefix:
+        # the same motif joined by reference two to four times (the library's own concatenate and Bar.to_sequence share Message
+        # objects): a legal sequence in which one wait / note Message object occurs at several positions
+        case["motif_times"] = 2 + i % 3
+    return case
 
 
 def run(case, ctx):
     from vmon.monitors import LOG
     s = gen.raw_rel_seq(case["msgs"])
+    if case.get("motif_times"):
+        from scoda.sequences.sequence import Sequence
+        motif = s
+        s = Sequence()
+        s.concatenate([motif] * case["motif_times"])
+        LOG.n("c07.motif_by_reference")
     s = apply_prefix(s, case.get("prefix", []))
     t0, d0 = orc.view_rel(s.rel)
     ev0 = orc.events(t0)
